@@ -20,7 +20,7 @@ def gen_spec(rng, size=None, features=None):
     """features: set of optional feature names to allow."""
     feats = features if features is not None else {
         'hdrs', 'steps', 'multi', 'gensrc', 'copy', 'alias', 'cmd', 'test',
-        'extra', 'default', 'install', 'always', 'subdirs', 'shared', 'implicit', 'pch'}
+        'extra', 'default', 'install', 'always', 'subdirs', 'shared', 'implicit', 'pch', 'prelib'}
     n = size or rng.randint(4, 22)
     files = {}
     nodes = []
@@ -42,6 +42,13 @@ def gen_spec(rng, size=None, features=None):
         p = 'data/d%d.txt' % i
         files[p] = 'data %d\n' % i
         data.append(p)
+
+    prelibs = []
+    if 'prelib' in feats:
+        for i in range(rng.randint(0, 2)):
+            p = 'vendor/libpre%d.a' % i
+            files[p] = '!<arch>\n'
+            prelibs.append(p)
 
     counter = [0]
 
@@ -113,7 +120,9 @@ def gen_spec(rng, size=None, features=None):
                   'objs': use_objs, 'srcs': use_srcs,
                   'hdrs': rng.sample(hdrs, rng.randint(0, min(1, len(hdrs)))) if use_srcs else [],
                   'libs': rng.sample(libs, rng.randint(0, min(2, len(libs)))),
-                  'extra': pick_extra(), 'pch_str': pch_str}
+                  'extra': pick_extra(), 'pch_str': pch_str,
+                  'prelibs': rng.sample(prelibs, rng.randint(0, len(prelibs)))
+                  if prelibs and kind != 'slib' and rng.random() < 0.4 else []}
             if pch_str and not nd['hdrs'] and hdrs:
                 nd['hdrs'] = [rng.choice(hdrs)]
         elif kind == 'step':
@@ -250,7 +259,9 @@ def render(spec, stub='vrec'):
         elif k in ('exe', 'slib', 'dlib'):
             fn = {'exe': 'executable', 'slib': 'static_library', 'dlib': 'shared_library'}[k]
             files = ['n%d' % o for o in nd['objs']] + [repr(s) for s in nd['srcs']]
-            libs = ', libs=[%s]' % ', '.join('n%d' % l for l in nd['libs']) if nd['libs'] else ''
+            liblist = ['n%d' % l for l in nd['libs']] + \
+                ['static_library(%r)' % p for p in nd.get('prelibs', [])]
+            libs = ', libs=[%s]' % ', '.join(liblist) if liblist else ''
             inc = ', includes=[%s]' % ', '.join(_ref(['file', h]) for h in nd['hdrs']) \
                 if nd.get('hdrs') else ''
             pch = ', pch=%r' % nd['pch_str'] if nd.get('pch_str') else ''
@@ -366,7 +377,8 @@ class Model:
                 self._step('%s%d/%s' % (k, i, s), i, 'compile',
                            ['S:' + s] + ['S:' + h for h in nd.get('hdrs', [])] + gch, [o])
                 objs.append(o)
-            libs = ['B:' + out_names(self.byid[l])[0] for l in nd['libs']]
+            libs = ['B:' + out_names(self.byid[l])[0] for l in nd['libs']] + \
+                ['S:' + p for p in nd.get('prelibs', [])]
             self._step('%s%d' % (k, i), i, 'link' if k != 'slib' else 'ar',
                        objs + libs + extra, ['B:' + out_names(nd)[0]])
             self.node_primary[i] = '%s%d' % (k, i)
